@@ -1041,6 +1041,23 @@ impl Cx {
   }
 }
 
+/// Outer net: library calls made while setting a case up (documents, services, credentials) run under
+/// this catch; the calls under observation have their own inner `catch` with specific signatures.
+fn guarded(cx: &mut Cx, what: &str, f: impl FnOnce(&mut Cx)) {
+  if let Err(p) = catch(|| f(cx)) {
+    if p.in_harness() {
+      // broken harness assumption: let the shard die, the driver reports it as inconclusive
+      eprintln!("C06 harness failure in {}: {} at {}", what, p.msg, p.loc());
+      panic!("harness failure in {}: {} at {}", what, p.msg, p.loc());
+    }
+    cx.rep.violation(
+      &format!("panic-outside-observed-call:{}@{}", what, p.file_only()),
+      &format!("library panicked during {}: {} at {}", what, p.msg, p.loc()),
+      json!({"phase": what}),
+    );
+  }
+}
+
 fn main() {
   let args = Args::parse();
   let scale = args.extra_u64("scale", 1000).max(1);
@@ -1053,52 +1070,6 @@ fn main() {
      (shape, log2 size, log2 containers, first deflate block type + 3rd base64 char) and history digests (doc kind, initial shape, per batch op/size class/query form)",
   );
   let mut rng = args.rng(6);
-  if args.extra_u64("probe", 0) == 1 {
-    // debugging aid: smallest sets (by cardinality) whose own endpoint the library rejects
-    let try_set = |s: &BTreeSet<u32>| -> Option<String> {
-      let mut b = RevocationBitmap::new();
-      for &i in s {
-        b.revoke(i);
-      }
-      let svc = b.to_service(DIDUrl::parse("did:example:p#r").unwrap()).ok()?;
-      match RevocationBitmap::try_from(&svc) {
-        Ok(_) => None,
-        Err(e) => Some(format!("{:?} -> {} ({})", s, endpoint_data(&svc).unwrap_or_default(), e)),
-      }
-    };
-    let mut shown = 0;
-    'outer: for k in 1..=4usize {
-      let mut idx: Vec<usize> = (0..k).collect();
-      loop {
-        let s: BTreeSet<u32> = idx.iter().map(|&i| BOUNDS[i]).collect();
-        if let Some(m) = try_set(&s) {
-          println!("subset k={} {}", k, m);
-          shown += 1;
-          if shown >= 6 {
-            break 'outer;
-          }
-        }
-        let mut p = k;
-        while p > 0 && idx[p - 1] == BOUNDS.len() - k + p - 1 {
-          p -= 1;
-        }
-        if p == 0 {
-          break;
-        }
-        idx[p - 1] += 1;
-        for q in p..k {
-          idx[q] = idx[q - 1] + 1;
-        }
-      }
-    }
-    for n in 1..=64u32 {
-      if let Some(m) = try_set(&(0..n).collect()) {
-        println!("prefix n={} {}", n, m);
-        break;
-      }
-    }
-    return;
-  }
   let thorough = args.thorough;
   let sel = |i: u64| -> bool { (i * scale / 1000) != ((i + 1) * scale / 1000) };
 
@@ -1143,7 +1114,7 @@ fn main() {
       continue;
     }
     let mut r = Rng::new(0xC06, i);
-    cx.set_case(shape, set, &mut r);
+    guarded(&mut cx, "set-case", |cx| cx.set_case(shape, set, &mut r));
     taken += 1;
   }
   cx.rep.count("distinct_exact", taken);
@@ -1153,12 +1124,12 @@ fn main() {
     if args.mine(0) {
       let s: BTreeSet<u32> = (0..65_536u32).map(|h| (h << 16) | (h.wrapping_mul(40_503) & 0xFFFF)).collect();
       let mut r = Rng::new(0xC06, 1 << 40);
-      cx.set_case("x-all-containers", &s, &mut r);
+      guarded(&mut cx, "set-case", |cx| cx.set_case("x-all-containers", &s, &mut r));
     }
     if args.mine(1) {
       let s: BTreeSet<u32> = (0..100_000u32).map(|i| i.wrapping_mul(42_949)).collect();
       let mut r = Rng::new(0xC06, 2 << 40);
-      cx.set_case("x-1e5-spread", &s, &mut r);
+      guarded(&mut cx, "set-case", |cx| cx.set_case("x-1e5-spread", &s, &mut r));
     }
   }
 
@@ -1168,14 +1139,14 @@ fn main() {
   for k in 0..per_shard {
     let shape = if k < SHAPES.len() as u64 { SHAPES[k as usize] } else { *rng.pick(SHAPES) };
     let set = gen_set(&mut rng, shape, cap);
-    cx.set_case(shape, &set, &mut rng);
+    guarded(&mut cx, "set-case", |cx| cx.set_case(shape, &set, &mut rng));
   }
 
   // ---- histories
   let n_hist: u64 = if thorough { 12_000 } else { 400 };
   let per_shard = (n_hist * scale / 1000 / args.nshards.max(1)).max(4);
   for k in 0..per_shard {
-    cx.history_case(&mut rng, thorough, k);
+    guarded(&mut cx, "history-case", |cx| cx.history_case(&mut rng, thorough, k));
   }
 
   cx.rep.note("size_cap", json!(cap));
